@@ -1,5 +1,293 @@
-(* Property C13 — PSI/SI tables decoded field for field; PAT and PMT encoded exactly (theorems only; proofs in Proofs/). *)
-From Coq Require Import ZArith List.
-Require Import Base.Bits Base.Iter Base.Wr Gen.Types Model.Psi.
+(* Property C13 — PSI/SI tables decoded field for field; PAT and PMT encoded exactly.
+   Statements only; proofs are in Proofs/PsiProofs.v (and Proofs/PsiParse.v).  The reference encoding is
+   Spec/PsiSpec.v: (width, value) field lists from ISO/IEC 13818-1 2.4.4 closed by the bitwise CRC-32/MPEG-2 of
+   Spec/CrcSpec.v.  parse_psi_data / write_psi_data / psi_to_data are the model of data_psi.go and data_pat.go
+   (Model/Psi.v), run against the implementation on every check; the table-id predicates, the checksum and
+   calcPATSectionLength are re-translated from the source on every run. *)
+From Coq Require Import ZArith List Lia.
+Require Import Base.Bits Base.Iter Base.Wr Gen.Consts Gen.Types Gen.Preds Model.Packet Model.Psi.
+Require Import Model.Desc Spec.CrcSpec Spec.DvbSpec Spec.PsiSpec Proofs.PsiProofs Proofs.PsiParse Proofs.PsiParsePmt Proofs.PsiWritePmt Proofs.PsiDescLink Proofs.PsiParseSi Proofs.PsiSiLink Proofs.PsiUserDesc.
 Import ListNotations.
 Open Scope Z_scope.
+
+(* C13_write_pat: writePSIData on a unit of one PAT section -- any pointer_field 0..255, any header flags, any
+   transport_stream_id / version / current_next / section numbers, any program numbers and PIDs (fields wider
+   than their slot are truncated on both sides), 0..253 programs (the 1021-byte section limit) -- produces, byte
+   for byte, pointer_field, the filler, and the reference encoding of the section, CRC_32 included. *)
+Theorem C13_write_pat : forall p c h sh d pat, 0 <= p < 256 ->
+  PSISectionHeader_TableID h = 0 -> PSISectionHeader_SectionLength h > 0 ->
+  PSISectionSyntaxData_PAT d = Some pat -> (length (PATData_Programs pat) <= 253)%nat ->
+  write_psi_data {| PSIData_PointerField := p; PSIData_Sections := [mk_section c h sh d] |} =
+  Ok (p :: repeat 0 (Z.to_nat p) ++
+      spec_pat_section (PSISectionHeader_SectionSyntaxIndicator h) (PSISectionHeader_PrivateBit h)
+        (PSISectionSyntaxHeader_TableIDExtension sh) (PSISectionSyntaxHeader_VersionNumber sh)
+        (PSISectionSyntaxHeader_CurrentNextIndicator sh) (PSISectionSyntaxHeader_SectionNumber sh)
+        (PSISectionSyntaxHeader_LastSectionNumber sh) (pat_entries pat)).
+Proof. exact write_pat. Qed.
+Print Assumptions C13_write_pat.
+
+(* C13_parse_pat: for every PAT content -- any number of programs up to the 1021-byte limit (induction over the
+   list), 16-bit program numbers / transport_stream_id, 13-bit PIDs, 5-bit version, any flags and section
+   numbers (pat_wf) -- and any pointer_field with its filler, parsePSIData on the reference encoding delivers
+   exactly one section carrying every generic header field (syntax indicator, private bit, section_length,
+   table id and type, table_id_extension, version, current/next, section numbers, CRC_32) and the programs,
+   field for field and in order. *)
+Theorem C13_parse_pat : forall p filler ssi pb ext ver cni sn lsn progs,
+  0 <= p < 256 -> Z.of_nat (length filler) = p -> pat_wf ext ver sn lsn progs ->
+  parse_psi_data_bytes (p :: filler ++ spec_pat_section ssi pb ext ver cni sn lsn progs) =
+  Ok {| PSIData_PointerField := p;
+        PSIData_Sections := [pat_section_value ssi pb ext ver cni sn lsn progs] |}.
+Proof. exact parse_pat_unit. Qed.
+Print Assumptions C13_parse_pat.
+
+(* C13_multi: several sections per unit.  For any byte strings that parsePSISection decodes wherever they lie
+   in a buffer (sec_parses: C13_pat_section_parses provides this for every PAT section), the unit made of
+   pointer_field, filler, the sections back to back, and then nothing or a stop byte (stuffing 0xff or an
+   unassigned table id) followed by arbitrary bytes, is decoded to exactly those sections in order (plus the
+   stop marker). *)
+Theorem C13_multi : forall p filler bss ss T ts, 0 <= p < 256 -> Z.of_nat (length filler) = p ->
+  Forall2 sec_parses bss ss -> unit_tail T ts ->
+  parse_psi_data_bytes (p :: filler ++ concat bss ++ T) =
+  Ok {| PSIData_PointerField := p; PSIData_Sections := ss ++ ts |}.
+Proof. exact parse_unit. Qed.
+Print Assumptions C13_multi.
+
+Theorem C13_pat_section_parses : forall ssi pb ext ver cni sn lsn progs, pat_wf ext ver sn lsn progs ->
+  sec_parses (spec_pat_section ssi pb ext ver cni sn lsn progs) (pat_section_value ssi pb ext ver cni sn lsn progs).
+Proof. exact pat_sec_parses. Qed.
+Print Assumptions C13_pat_section_parses.
+
+(* C13_to_data: PSIData.toData keeps content and order: it distributes over the section list, a stop marker
+   yields nothing, and a section with syntax data yields exactly one DemuxerData of the kind its table id says
+   (all variants: 0x40/0x41, 0x42/0x46, 0x4e..0x6f, 0x73), carrying the section's table, the PID and the packet. *)
+Theorem C13_to_data_order : forall p s1 s2 fp pid,
+  psi_to_data {| PSIData_PointerField := p; PSIData_Sections := s1 ++ s2 |} fp pid =
+  psi_to_data {| PSIData_PointerField := p; PSIData_Sections := s1 |} fp pid ++
+  psi_to_data {| PSIData_PointerField := p; PSIData_Sections := s2 |} fp pid.
+Proof. exact psi_to_data_app. Qed.
+Print Assumptions C13_to_data_order.
+
+Theorem C13_to_data : forall s h syn d fp pid, PSISection_Header s = Some h -> PSISection_Syntax s = Some syn ->
+  PSISectionSyntax_Data syn = Some d ->
+  let tid := PSISectionHeader_TableID h in
+  (tid = 0 -> section_to_data s fp pid = [demuxer_data fp pid None None (PSISectionSyntaxData_PAT d) None None None]) /\
+  (tid = 2 -> section_to_data s fp pid = [demuxer_data fp pid None None None (PSISectionSyntaxData_PMT d) None None]) /\
+  (tid = 64 \/ tid = 65 -> section_to_data s fp pid = [demuxer_data fp pid None (PSISectionSyntaxData_NIT d) None None None None]) /\
+  (tid = 66 \/ tid = 70 -> section_to_data s fp pid = [demuxer_data fp pid None None None None (PSISectionSyntaxData_SDT d) None]) /\
+  (78 <= tid <= 111 -> section_to_data s fp pid = [demuxer_data fp pid (PSISectionSyntaxData_EIT d) None None None None None]) /\
+  (tid = 115 -> section_to_data s fp pid = [demuxer_data fp pid None None None None None (PSISectionSyntaxData_TOT d)]).
+Proof. exact to_data_kinds. Qed.
+Print Assumptions C13_to_data.
+
+(* the PAT end to end: what the demuxer hands on for the reference encoding of a PAT is that PAT *)
+Theorem C13_pat_delivered : forall p filler ssi pb ext ver cni sn lsn progs fp pid,
+  0 <= p < 256 -> Z.of_nat (length filler) = p -> pat_wf ext ver sn lsn progs ->
+  res_map (fun d => psi_to_data d fp pid)
+    (parse_psi_data_bytes (p :: filler ++ spec_pat_section ssi pb ext ver cni sn lsn progs)) =
+  Ok [demuxer_data fp pid None None
+        (Some {| PATData_Programs := map pat_program_of progs; PATData_TransportStreamID := ext |}) None None None].
+Proof. exact pat_delivered. Qed.
+Print Assumptions C13_pat_delivered.
+
+(* C13_parse_pmt: the same for every PMT content -- any number of elementary streams (induction over the list),
+   any stream types, 13-bit PIDs, any program / elementary-stream descriptor loops -- with the descriptor loops
+   ABSTRACTED: desc_enc relates a descriptor list to its encoding (C14's reference encoder), and the two premises
+   are C14's statements that such an encoding is bytes of less than 4096 and that parseDescriptors inverts the
+   loop `reserved(4) length(12) bytes` wherever it lies in a buffer.  Everything else -- header, syntax header,
+   PCR PID, stream loop bounded by the section end, CRC gate, seek -- is proved here.  pmt_sec_parses makes PMT
+   sections usable in C13_multi. *)
+Theorem C13_parse_pmt : forall (desc_enc : list Descriptor -> list Z -> Prop),
+  (forall ds bytes, desc_enc ds bytes -> bytes_ok bytes /\ Z.of_nat (length bytes) < 4096) ->
+  (forall ds bytes i r, desc_enc ds bytes -> at_ i (spec_desc_loop bytes ++ r) ->
+     parse_descriptors i = Ok (ds, mk_iter (ibs i) (ioff i + 2 + Z.of_nat (length bytes)))) ->
+  forall p filler ssi pb ext ver cni sn lsn pcr pds pbytes xs,
+  0 <= p < 256 -> Z.of_nat (length filler) = p -> pmt_wf desc_enc ext ver sn lsn pcr pds pbytes xs ->
+  parse_psi_data_bytes (p :: filler ++ spec_pmt_section ssi pb ext ver cni sn lsn pcr pbytes (map stream_spec xs)) =
+  Ok {| PSIData_PointerField := p;
+        PSIData_Sections := [pmt_section_value ssi pb ext ver cni sn lsn pcr pds pbytes xs] |}.
+Proof. exact parse_pmt_unit. Qed.
+Print Assumptions C13_parse_pmt.
+
+Theorem C13_pmt_section_parses : forall (desc_enc : list Descriptor -> list Z -> Prop),
+  (forall ds bytes, desc_enc ds bytes -> bytes_ok bytes /\ Z.of_nat (length bytes) < 4096) ->
+  (forall ds bytes i r, desc_enc ds bytes -> at_ i (spec_desc_loop bytes ++ r) ->
+     parse_descriptors i = Ok (ds, mk_iter (ibs i) (ioff i + 2 + Z.of_nat (length bytes)))) ->
+  forall ssi pb ext ver cni sn lsn pcr pds pbytes xs, pmt_wf desc_enc ext ver sn lsn pcr pds pbytes xs ->
+  sec_parses (spec_pmt_section ssi pb ext ver cni sn lsn pcr pbytes (map stream_spec xs))
+             (pmt_section_value ssi pb ext ver cni sn lsn pcr pds pbytes xs).
+Proof. exact pmt_sec_parses. Qed.
+Print Assumptions C13_pmt_section_parses.
+
+(* C13_parse_pmt_nodesc: the premises of C13_parse_pmt are satisfiable, and for PMTs whose descriptor loops are
+   empty nothing is left as a premise: any number of streams up to 200, every stream_type and PID value. *)
+Theorem C13_parse_pmt_nodesc : forall p filler ssi pb ext ver cni sn lsn pcr (xs : list (Z * Z)),
+  0 <= p < 256 -> Z.of_nat (length filler) = p ->
+  0 <= ext < 2 ^ 16 -> 0 <= ver < 32 -> 0 <= sn < 256 -> 0 <= lsn < 256 -> 0 <= pcr < 2 ^ 13 ->
+  Forall (fun x => 0 <= fst x < 256 /\ 0 <= snd x < 2 ^ 13) xs -> (length xs <= 200)%nat ->
+  let streams := map (fun x => (fst x, snd x, @nil Descriptor, @nil Z)) xs in
+  parse_psi_data_bytes (p :: filler ++ spec_pmt_section ssi pb ext ver cni sn lsn pcr [] (map stream_spec streams)) =
+  Ok {| PSIData_PointerField := p;
+        PSIData_Sections := [pmt_section_value ssi pb ext ver cni sn lsn pcr [] [] streams] |}.
+Proof. exact parse_pmt_unit_nodesc. Qed.
+Print Assumptions C13_parse_pmt_nodesc.
+
+(* C13_write_pmt_rel: writePSIData on a unit of one PMT section is, byte for byte, the reference encoding, RELATIVE to
+   C14's statement about descriptor loops, which enters as an explicit premise: for a descriptor list and its
+   reference encoding (desc_enc), writeDescriptorsWithLength succeeds and emits `reserved(4) length(12) bytes`, and
+   calcDescriptorsLength is the number of those bytes.  Any number of streams (induction), any stream types and
+   PIDs (truncated to their slots on both sides), section within the 12-bit length. *)
+Theorem C13_write_pmt_rel : forall (desc_enc : list Descriptor -> list Z -> Prop),
+  (forall ds bytes, desc_enc ds bytes ->
+     Z.of_nat (length bytes) < 4096 /\ calc_descriptors_length ds = Z.of_nat (length bytes) /\
+     exists its, enc_descriptors_with_length ds = Ok its /\ items_bytes_ok its /\
+                 length (items_bits its) = (8 * (2 + length bytes))%nat /\
+                 bytes_of_items its = spec_desc_loop bytes) ->
+  forall p c h sh d ext_pn pcr pds pbytes xs, 0 <= p < 256 ->
+  PSISectionHeader_TableID h = 2 -> PSISectionHeader_SectionLength h > 0 ->
+  PSISectionSyntaxData_PMT d = Some {| PMTData_ElementaryStreams := map stream_value xs; PMTData_PCRPID := pcr;
+                                       PMTData_ProgramDescriptors := pds; PMTData_ProgramNumber := ext_pn |} ->
+  desc_enc pds pbytes -> Forall (wstream_ok desc_enc) xs ->
+  9 + Z.of_nat (length pbytes) + Z.of_nat (length (flat_map stream_bytes xs)) + 4 < 4096 ->
+  write_psi_data {| PSIData_PointerField := p; PSIData_Sections := [mk_section c h sh d] |} =
+  Ok (p :: repeat 0 (Z.to_nat p) ++
+      spec_pmt_section (PSISectionHeader_SectionSyntaxIndicator h) (PSISectionHeader_PrivateBit h)
+        (PSISectionSyntaxHeader_TableIDExtension sh) (PSISectionSyntaxHeader_VersionNumber sh)
+        (PSISectionSyntaxHeader_CurrentNextIndicator sh) (PSISectionSyntaxHeader_SectionNumber sh)
+        (PSISectionSyntaxHeader_LastSectionNumber sh) pcr pbytes (map stream_spec xs)).
+Proof. exact write_pmt. Qed.
+Print Assumptions C13_write_pmt_rel.
+
+(* C13_write_pmt: the premise discharged with C14's lemmas: desc_bytes ds bytes says that ds is in C14's domain
+   (no body above 255 bytes, loop below 4096, the writer succeeds with byte content) and bytes are the bytes
+   writeDescriptors emits for it (whose TLV structure and length bytes C14_len describes).  writePSIData on one
+   PMT section with such descriptor loops is pointer_field, filler and the reference section layout
+   (ISO 13818-1 2.4.4.8) around those descriptor bytes, CRC_32 included -- any number of streams. *)
+Theorem C13_write_pmt : forall p c h sh d ext_pn pcr pds pbytes xs, 0 <= p < 256 ->
+  PSISectionHeader_TableID h = 2 -> PSISectionHeader_SectionLength h > 0 ->
+  PSISectionSyntaxData_PMT d = Some {| PMTData_ElementaryStreams := map stream_value xs; PMTData_PCRPID := pcr;
+                                       PMTData_ProgramDescriptors := pds; PMTData_ProgramNumber := ext_pn |} ->
+  desc_bytes pds pbytes -> Forall (wstream_ok desc_bytes) xs ->
+  9 + Z.of_nat (length pbytes) + Z.of_nat (length (flat_map stream_bytes xs)) + 4 < 4096 ->
+  write_psi_data {| PSIData_PointerField := p; PSIData_Sections := [mk_section c h sh d] |} =
+  Ok (p :: repeat 0 (Z.to_nat p) ++
+      spec_pmt_section (PSISectionHeader_SectionSyntaxIndicator h) (PSISectionHeader_PrivateBit h)
+        (PSISectionSyntaxHeader_TableIDExtension sh) (PSISectionSyntaxHeader_VersionNumber sh)
+        (PSISectionSyntaxHeader_CurrentNextIndicator sh) (PSISectionSyntaxHeader_SectionNumber sh)
+        (PSISectionSyntaxHeader_LastSectionNumber sh) pcr pbytes (map stream_spec xs)).
+Proof. exact write_pmt_closed. Qed.
+Print Assumptions C13_write_pmt.
+
+(* ---- SDT, NIT, EIT, TOT (EN 300 468 5.2) ----
+   C13_parse_sdt / _nit / _eit / _tot: for every well-formed section of these types -- both SDT ids (0x42, 0x46), both
+   NIT ids (0x40, 0x41), all 34 EIT ids (0x4e..0x6f), the TOT (0x73); any number of services / transport streams /
+   events (induction over the lists), all identifier values, every running_status / free_CA / EIT flag value --
+   parsePSISection on the reference encoding (Spec/PsiSpec.v) yields exactly the content with every generic header
+   field and the CRC_32, wherever the section lies in a unit (sec_parses, so the sections can be mixed freely in
+   C13_multi).  MJD/BCD times and durations are C15's encodings (c15_time / c15_dur: MJD 15079..65535, two BCD
+   digits per field), discharged with C15's decode theorems.  Descriptor loops are ABSTRACTED as for the PMT:
+   desc_enc relates a descriptor list to its bytes; the two premises say such bytes are bytes (< 4096 of them) and
+   that parseDescriptors inverts `4 bits, length(12), bytes` wherever it lies -- C14's round trip, which C14 does
+   not provide as a theorem yet (C14_tlv gives the framing only).  The premises are satisfiable: no_desc16 (empty
+   loops) fulfils them (C13_no_desc_premises), which closes the four theorems for sections without descriptors. *)
+Theorem C13_no_desc_premises : desc_premises no_desc16.
+Proof. exact no_desc_premises. Qed.
+Print Assumptions C13_no_desc_premises.
+
+(* the premises also hold for loops of user-defined (private) descriptors: tags 0x80..0xfe, bodies of 0..255
+   arbitrary bytes, any number of them below 4096 bytes -- proved against the real model of parseDescriptors.  So
+   the decoding theorems of all six table types are closed for sections whose descriptor loops consist of private
+   descriptors (and, trivially, for empty loops). *)
+Theorem C13_user_desc_premises : desc_premises ud_desc.
+Proof. exact ud_desc_premises. Qed.
+Print Assumptions C13_user_desc_premises.
+
+Theorem C13_pmt_section_parses_p : forall desc_enc, desc_premises desc_enc ->
+  forall ssi pb ext ver cni sn lsn pcr pds pbytes xs, pmt_wf desc_enc ext ver sn lsn pcr pds pbytes xs ->
+  sec_parses (spec_pmt_section ssi pb ext ver cni sn lsn pcr pbytes (map stream_spec xs))
+             (pmt_section_value ssi pb ext ver cni sn lsn pcr pds pbytes xs).
+Proof. exact pmt_sec_parses_p. Qed.
+Print Assumptions C13_pmt_section_parses_p.
+
+Theorem C13_parse_sdt : forall desc_enc, desc_premises desc_enc ->
+  forall tid ssi pb ext ver cni sn lsn onid xs, sdt_wf desc_enc tid ext ver sn lsn onid xs ->
+  sec_parses (spec_section tid ssi pb (spec_sdt_body ext ver cni sn lsn onid (map sv_spec xs)))
+             (sdt_section_value tid ssi pb ext ver cni sn lsn onid xs).
+Proof. exact sdt_parses_p. Qed.
+Print Assumptions C13_parse_sdt.
+
+Theorem C13_parse_nit : forall desc_enc, desc_premises desc_enc ->
+  forall tid ssi pb ext ver cni sn lsn nds nbytes xs, nit_wf desc_enc tid ext ver sn lsn nds nbytes xs ->
+  sec_parses (spec_section tid ssi pb (spec_nit_body ext ver cni sn lsn nbytes (map ts_spec xs)))
+             (nit_section_value tid ssi pb ext ver cni sn lsn nds nbytes xs).
+Proof. exact nit_parses_p. Qed.
+Print Assumptions C13_parse_nit.
+
+Theorem C13_parse_eit : forall desc_enc, desc_premises desc_enc ->
+  forall tid ssi pb ext ver cni sn lsn tsid onid slsn ltid xs,
+  eit_wf desc_enc c15_time c15_dur tid ext ver sn lsn tsid onid slsn ltid xs ->
+  sec_parses (spec_section tid ssi pb (spec_eit_body ext ver cni sn lsn tsid onid slsn ltid (map ev_spec xs)))
+             (eit_section_value tid ssi pb ext ver cni sn lsn tsid onid slsn ltid xs).
+Proof. exact eit_parses_p. Qed.
+Print Assumptions C13_parse_eit.
+
+Theorem C13_parse_tot : forall desc_enc, desc_premises desc_enc ->
+  forall ssi pb t tb ds bytes, c15_time t tb -> desc_enc ds bytes -> 7 + Z.of_nat (length bytes) + 4 < 4096 ->
+  sec_parses (spec_section 115 ssi pb (spec_tot_body tb bytes)) (tot_section_value ssi pb t tb ds bytes).
+Proof. exact tot_parses_p. Qed.
+Print Assumptions C13_parse_tot.
+
+(* non-vacuity: the hypotheses are satisfiable and the statements evaluate as claimed on a concrete PAT with
+   edge values; two PAT sections followed by stuffing give two sections and the stop marker *)
+Example C13_example_wf : pat_wf 65535 31 255 0 [(0, 16); (1, 4096); (65535, 8191)].
+Proof. unfold pat_wf, pat_entry_ok. repeat split; try (cbn; lia). repeat constructor; cbn; lia. Qed.
+
+Example C13_example_parse :
+  parse_psi_data_bytes (2 :: [170; 85] ++ spec_pat_section true false 65535 31 true 255 0 [(0, 16); (1, 4096); (65535, 8191)]) =
+  Ok {| PSIData_PointerField := 2;
+        PSIData_Sections := [pat_section_value true false 65535 31 true 255 0 [(0, 16); (1, 4096); (65535, 8191)]] |}.
+Proof. vm_compute. reflexivity. Qed.
+
+Example C13_example_multi :
+  match parse_psi_data_bytes (0 :: spec_pat_section true false 1 0 true 0 1 [(1, 256)] ++
+                                   spec_pat_section true false 1 0 true 1 1 [] ++ [255; 255; 7]) with
+  | Ok d => (length (PSIData_Sections d) =? 3)%nat
+  | _ => false
+  end = true.
+Proof. vm_compute. reflexivity. Qed.
+
+Example C13_example_pmt :
+  parse_psi_data_bytes (0 :: spec_pmt_section true false 1 3 true 0 0 256 [] [(27, 256, []); (15, 8191, [])]) =
+  Ok {| PSIData_PointerField := 0;
+        PSIData_Sections := [pmt_section_value true false 1 3 true 0 0 256 [] []
+                               [(27, 256, [], []); (15, 8191, [], [])]] |}.
+Proof. vm_compute. reflexivity. Qed.
+
+(* an SDT with two services, an EIT with one event (2000-01-01 12:34:56, 01:30:00) and a TOT, empty descriptor
+   loops, followed by stuffing: decoded by the model exactly as the theorems say *)
+Example C13_example_si :
+  let sdt := spec_section 66 true true (spec_sdt_body 1 2 true 0 0 3 [(10, true, false, 4, true, []); (11, false, true, 1, false, [])]) in
+  let eit := spec_section 78 true true (spec_eit_body 10 0 true 0 0 1 3 0 78
+               [(7, spec_time_bytes 51544 12 34 56, [bcd_byte 1; bcd_byte 30; bcd_byte 0], 4, false, [])]) in
+  let tot := spec_section 115 false true (spec_tot_body (spec_time_bytes 51544 12 34 56) []) in
+  parse_psi_data_bytes (0 :: sdt ++ eit ++ tot ++ [255]) =
+  Ok {| PSIData_PointerField := 0;
+        PSIData_Sections :=
+          [ sdt_section_value 66 true true 1 2 true 0 0 3
+              [mk_sdt_svc 10 true false 4 true [] []; mk_sdt_svc 11 false true 1 false [] []];
+            eit_section_value 78 true true 10 0 true 0 0 1 3 0 78
+              [mk_eit_ev 7 (spec_unix 51544 12 34 56) (spec_time_bytes 51544 12 34 56)
+                         (spec_duration_ns 1 30 0) [bcd_byte 1; bcd_byte 30; bcd_byte 0] 4 false [] []];
+            tot_section_value false true (spec_unix 51544 12 34 56) (spec_time_bytes 51544 12 34 56) [] [];
+            stop_section 255 ] |}.
+Proof. vm_compute. reflexivity. Qed.
+
+(* a PMT whose program and stream descriptor loops hold private descriptors (one with an empty body) *)
+Example C13_example_pmt_userdesc :
+  let pd := [(200, [1; 2; 3]); (254, [])] in
+  let sd := [(128, [255])] in
+  parse_psi_data_bytes (0 :: spec_pmt_section true false 1 3 true 0 0 256 (flat_map ud_enc pd)
+                                [(27, 256, flat_map ud_enc sd)]) =
+  Ok {| PSIData_PointerField := 0;
+        PSIData_Sections := [pmt_section_value true false 1 3 true 0 0 256 (map ud_value pd) (flat_map ud_enc pd)
+                               [(27, 256, map ud_value sd, flat_map ud_enc sd)]] |}.
+Proof. vm_compute. reflexivity. Qed.
